@@ -15,17 +15,28 @@ def scenarios(tier):
     out = []
     for point in ("poller.start", "writer.start", "writer.ready"):
         for f in (0, 1):
-            out.append((point, 0, f))
+            out.append((point, 0, f, 0))
     for point in ("poller.loop", "poller.send", "poller.wait", "writer.loop"):
         for nth in ((0, 1, 2) if tier == "quick" else (0, 1, 2, 3, 5)):
             for f in (0, 1):
-                out.append((point, nth, f))
-    out.append(("unwritable-segment", 0, 0))
+                out.append((point, nth, f, 0))
+    out.append(("unwritable-segment", 0, 0, 0))
+    # a long outage of chronyd (absent for the whole run) before the death: whatever the poller does
+    # about an unreachable chronyd must not keep it away from its mailbox
+    for nth in ((5,) if tier == "quick" else (5, 7)):
+        for f in (0, 1):
+            out.append(("writer.loop", nth, f, 0))
+    # a hung chronyd: the other worker is inside a request (not at its mailbox) when the death happens,
+    # and may die in turn when it finds its peer gone (a second death while the shutdown is under way)
+    for point, nth in (("writer.start", 0), ("writer.ready", 0), ("writer.loop", 0), ("writer.loop", 1), ("poller.loop", 1), ("poller.send", 0), ("poller.wait", 0)):
+        for f in (0, 1):
+            out.append((point, nth, f, 1))
+    out.append(("unwritable-segment", 0, 0, 1))
     return out
 
 
 def run_one(binary, sc):
-    line = "thr %s %d %d" % sc
+    line = "thr %s %d %d %d" % sc
     try:
         out = c.run_lines_in_namespace(binary, [line], timeout=60)[0]
     except c.CheckError as e:
@@ -62,7 +73,7 @@ def run(res, proofs_ok, proofs_why, only=None):
     res.oblige("real thread_manager::run returns within the deadline after every injected or real worker death (%d scenarios)" % len(results), not bad)
     res.trusted_base += ["message-passing abstraction of Daemon/Threads.v: std mpsc FIFO semantics, Drop order of Context, thread::panicking(), OS scheduling fairness are assumed",
                          "cfg-gated fault points (clock-bound-d/src/verif_fault.rs); the wall-clock figure is observed, not proved",
-                         "no chronyd in the namespace: the poller's query fails at once, its wait is the real 1 s recv_timeout"]
+                         "chronyd in the namespace is absent (the poller's query fails at once) or hung (a bound socket nobody reads: each query takes the client's 3 s time-out); the poller's wait is the real 1 s recv_timeout"]
     res.assumptions.append("partial: the theorems are about the model; the exit 'within a few seconds' is an observation on this machine (worst %d ms)" % worst)
     if bad:
         res.violation({"property": "C15", "kind": "history", "case": bad[0], "others": [b["scenario"] for b in bad[1:5]],
@@ -74,6 +85,6 @@ def run(res, proofs_ok, proofs_why, only=None):
 def replay(res, path):
     r = json.load(open(path))
     sc = r["case"]["scenario"].split()
-    line, d, raw = run_one(c.build_harness("debug")[0], (sc[1], int(sc[2]), int(sc[3])))
+    line, d, raw = run_one(c.build_harness("debug")[0], (sc[1], int(sc[2]), int(sc[3]), int(sc[4]) if len(sc) > 4 else 0))
     print("scenario %s\nimpl %s" % (line, raw))
     return 0 if d and d["returned"] == "1" and int(d["ms_after_death"]) <= DEADLINE_MS else 1
